@@ -9,5 +9,5 @@ mod repo;
 mod text;
 
 fn main() {
-    vcommon::main(&[&c18::DEF])
+    vcommon::main(&[&c17::DEF, &c18::DEF])
 }
